@@ -106,7 +106,7 @@ func genStoreCase(t *rapid.T) StoreCase {
 		sp := StorePlan{
 			Spec:      c15Cfg.Plan(t, l, i+1),
 			Status:    rapid.IntRange(0, len(store.Statuses)-1).Draw(t, l+".status"),
-			ViaUpdate: rapid.Bool().Draw(t, l+".viaupdate"),
+			ViaUpdate: rapid.IntRange(0, 3).Draw(t, l+".direct") != 3, // default: the engine's way (pristine Create + UpdatePlan)
 			Deleted:   rapid.IntRange(0, 4).Draw(t, l+".deleted") == 4,
 		}
 		if k := rapid.IntRange(0, len(submitPool)+1).Draw(t, l+".submitk"); k < len(submitPool) {
@@ -564,8 +564,10 @@ func checkStoreCase(c StoreCase) (res vprop.Result) {
 	// 1. build the store through the public API
 	for i, sp := range c.Plans {
 		spec := sp.Spec
-		if !sp.ViaUpdate {
+		viaUpdate := sp.ViaUpdate || sp.Status == 0
+		if !viaUpdate {
 			spec.State.Status = sp.Status
+			res.Label("create_with_status_direct")
 		}
 		plan := store.Build(spec)
 		id := plan.ID
@@ -573,12 +575,23 @@ func checkStoreCase(c StoreCase) (res vprop.Result) {
 		if guard(&res, "C15", arm, fmt.Sprintf("Create of plan %d", i), func() { cerr = h.Vault.Create(ctx, plan) }) {
 			return res
 		}
+		if cerr != nil && !viaUpdate {
+			// a vault may refuse a plan that already carries a status (the statements give Create the definition only):
+			// build the same store the engine's way instead
+			res.Label("create_nonpristine_refused")
+			spec.State.Status = 0
+			viaUpdate = true
+			plan = store.Build(spec)
+			if guard(&res, "C15", arm, fmt.Sprintf("Create of plan %d (pristine)", i), func() { cerr = h.Vault.Create(ctx, plan) }) {
+				return res
+			}
+		}
 		if cerr != nil {
 			res.Skip = true // Create is C13/C14's business; without the store there is nothing to query
 			res.Label("setup_create_failed")
 			return res
 		}
-		if sp.ViaUpdate {
+		if viaUpdate && sp.Status != 0 {
 			var live *workflow.Plan
 			var rerr, uerr error
 			if guard(&res, "C15", arm, "Read during setup", func() { live, rerr = h.Vault.Read(ctx, id) }) {
